@@ -561,7 +561,9 @@ NestedInCompleted(j) == Prog[j].parent # 0 /\ loc[Prog[j].parent].st \in TERMINA
 LogStep ==
   /\ Running("LOG", "Check")
   /\ LET emitted == lg.rs = "NEW"
-         expected == ~(\E i \in lg.comp : i > pc)          \* no operation completed before this invocation began lies ahead
+         \* no operation completed before this invocation began lies ahead; a child context completes at the END of its body
+         \* (log calls inside a body that is run again - oversized result replaced by a summary - precede that point)
+         expected == ~(\E i \in lg.comp : (IF Prog[i].kind = "CHILD_BEGIN" THEN Prog[i].endIdx ELSE i) > pc)
          unvisited == {i \in CompletedNow : i \notin lg.visited}
          cause == IF expected /\ ~emitted
                     THEN (IF \E i \in unvisited : NestedInCompleted(i) THEN {<<"log-silent-nested-completed", pc>>}
